@@ -9,11 +9,13 @@ namespace Prom.HM
 open Prom Prom.Conc Hp
 
 /-- what one accepted event does to `claimed`: nothing, or (only from an `obsStart` task: the claim
-    step) it appends that task's observation; and no event ever leaves its call in an `obsStart` task -/
+    step) it appends that task's observation; and an event leaves its call in an `obsStart` task only if it
+    is a stutter of the claim written as a compare-exchange loop (its load, a failed exchange): the task is
+    the one it was and nothing has been claimed -/
 theorem evStep1_claim {k : Nat} {c : Hp.St} {cuts : Cuts} {e : Ev} {pc : Pc} {c' : Hp.St} {pc' : Pc}
     {rv : Option String} {cuts' : Cuts}
     (h : evStep1 k c cuts e pc = .ok ((c', pc', rv), cuts')) :
-    (∀ o, pc'.task ≠ some (.obsStart o)) ∧
+    ((∀ o, pc'.task ≠ some (.obsStart o)) ∨ (pc'.task = pc.task ∧ c'.claimed = c.claimed)) ∧
     (c'.claimed = c.claimed ∨ ∃ o, pc.task = some (.obsStart o) ∧ c'.claimed = c.claimed ++ [o]) := by
   unfold evStep1 at h
   simp only at h
@@ -21,104 +23,126 @@ theorem evStep1_claim {k : Nat} {c : Hp.St} {cuts : Cuts} {e : Ev} {pc : Pc} {c'
   · next ht =>
     rw [plainR_ok, guard_ok] at h
     obtain ⟨⟨_, h⟩, _⟩ := h; cases h
-    exact ⟨fun o ho => by simp [ht] at ho, .inl rfl⟩
+    exact ⟨.inl (fun o ho => by simp [ht] at ho), .inl rfl⟩
   · next o ht =>
-    rw [plainR_ok, guard_ok] at h
-    obtain ⟨⟨_, h⟩, _⟩ := h; cases h
-    exact ⟨fun o ho => by simp at ho, .inr ⟨o, ht, rfl⟩⟩
+    rw [plainR_ok] at h
+    obtain ⟨h, _⟩ := h
+    rcases fetchAdd_cases h with ⟨⟨ic, f, hr⟩, hfl, hfk⟩ | ⟨hr, hfok, hfl, hfo, hfr, hfk⟩
+    · cases hr; exact ⟨.inr ⟨rfl, rfl⟩, .inl rfl⟩
+    · cases hr
+      exact ⟨.inl (fun o ho => by simp at ho), .inr ⟨o, ht, rfl⟩⟩
   · next o b p l ht =>
     simp only [obsEntry] at h
     split at h
-    · rw [plainR_ok, guard_ok] at h
-      obtain ⟨⟨_, h⟩, _⟩ := h; cases h
-      exact ⟨fun o ho => by simp at ho, .inl rfl⟩
+    · rw [plainR_ok] at h
+      obtain ⟨h, _⟩ := h
+      rcases fetchAdd_cases h with ⟨⟨ic, f, hr⟩, hfl, hfk⟩ | ⟨hr, hfok, hfl, hfo, hfr, hfk⟩
+      · cases hr; exact ⟨.inl (fun o ho => by simp [ht] at ho), .inl rfl⟩
+      · cases hr
+        exact ⟨.inl (fun o ho => by simp at ho), .inl rfl⟩
     · rw [plainR_ok] at h
       obtain ⟨h, _⟩ := h
       rcases casLoop_c0 h with ⟨_, h2, h3⟩ | h1
       · simp only at h2 h3; subst h2
-        exact ⟨fun o ho => by simp [h3, ht] at ho, .inl rfl⟩
+        exact ⟨.inl (fun o ho => by simp [h3, ht] at ho), .inl rfl⟩
       · cases h1
-        exact ⟨fun o ho => by simp at ho, .inl rfl⟩
+        exact ⟨.inl (fun o ho => by simp at ho), .inl rfl⟩
   · next o b ht =>
-    rw [plainR_ok, guard_ok] at h
-    obtain ⟨⟨_, h⟩, _⟩ := h; cases h
-    exact ⟨fun o ho => by simp at ho, .inl rfl⟩
+    rw [plainR_ok] at h
+    obtain ⟨h, _⟩ := h
+    rcases fetchAdd_cases h with ⟨⟨ic, f, hr⟩, hfl, hfk⟩ | ⟨hr, hfok, hfl, hfo, hfr, hfk⟩
+    · cases hr; exact ⟨.inl (fun o ho => by simp [ht] at ho), .inl rfl⟩
+    · cases hr
+      exact ⟨.inl (fun o ho => by simp at ho), .inl rfl⟩
   · next ht =>
     rw [plainR_ok, guard_ok] at h
     obtain ⟨⟨_, h⟩, _⟩ := h; cases h
-    exact ⟨fun o ho => by simp at ho, .inl rfl⟩
+    exact ⟨.inl (fun o ho => by simp at ho), .inl rfl⟩
   · next ht =>
     split at h
     · split at h
       · rw [plainR_ok, guard_ok] at h
         obtain ⟨⟨_, h⟩, _⟩ := h; cases h
-        exact ⟨fun o ho => by simp [ht] at ho, .inl rfl⟩
+        exact ⟨.inl (fun o ho => by simp [ht] at ho), .inl rfl⟩
       · split at h
         · rw [plainR_ok, guard_ok] at h
           obtain ⟨⟨_, h⟩, _⟩ := h; cases h
-          exact ⟨fun o ho => by simp [ht] at ho, .inl rfl⟩
+          exact ⟨.inl (fun o ho => by simp [ht] at ho), .inl rfl⟩
         · rw [plainR_ok, guard_ok] at h
           obtain ⟨⟨_, h⟩, _⟩ := h; cases h
-          exact ⟨fun o ho => by simp at ho, .inl rfl⟩
-    · rw [plainR_ok, guard_ok] at h
-      obtain ⟨⟨_, h⟩, _⟩ := h; cases h
-      exact ⟨fun o ho => by simp at ho, .inl rfl⟩
+          exact ⟨.inl (fun o ho => by simp at ho), .inl rfl⟩
+    · rw [plainR_ok] at h
+      obtain ⟨h, _⟩ := h
+      rcases fetchAdd_cases h with ⟨⟨ic, f, hr⟩, hfl, hfk⟩ | ⟨hr, hfok, hfl, hfo, hfr, hfk⟩
+      · cases hr; exact ⟨.inl (fun o ho => by simp [ht] at ho), .inl rfl⟩
+      · cases hr
+        exact ⟨.inl (fun o ho => by simp at ho), .inl rfl⟩
   · next cold ov S ht =>
     rw [plainR_ok, guard_ok] at h
     obtain ⟨⟨_, h⟩, _⟩ := h
     split at h
     · rw [guard_ok] at h
       obtain ⟨_, h⟩ := h; cases h
-      exact ⟨fun o ho => by simp at ho, .inl rfl⟩
+      exact ⟨.inl (fun o ho => by simp at ho), .inl rfl⟩
     · rw [guard_ok] at h
       obtain ⟨_, h⟩ := h; cases h
-      exact ⟨fun o ho => by simp [ht] at ho, .inl rfl⟩
+      exact ⟨.inl (fun o ho => by simp [ht] at ho), .inl rfl⟩
   · next cold ov cell todo taken S ht =>
     split at h
     · rw [plainR_ok, guard_ok] at h
       obtain ⟨⟨_, h⟩, _⟩ := h; cases h
-      exact ⟨fun o ho => by simp at ho, .inl rfl⟩
+      exact ⟨.inl (fun o ho => by simp at ho), .inl rfl⟩
     · rw [plainR_ok, guard_ok] at h
       obtain ⟨⟨_, h⟩, _⟩ := h; cases h
-      exact ⟨fun o ho => by simp at ho, .inl rfl⟩
+      exact ⟨.inl (fun o ho => by simp at ho), .inl rfl⟩
   · next cold ov cell todo taken S ht =>
     split at h
-    · rw [plainR_ok, guard_ok] at h
-      obtain ⟨⟨_, h⟩, _⟩ := h; cases h
-      exact ⟨fun o ho => by simp at ho, .inl rfl⟩
+    · rw [plainR_ok] at h
+      obtain ⟨h, _⟩ := h
+      rcases fetchAdd_cases h with ⟨⟨ic, f, hr⟩, hfl, hfk⟩ | ⟨hr, hfok, hfl, hfo, hfr, hfk⟩
+      · cases hr; exact ⟨.inl (fun o ho => by simp [ht] at ho), .inl rfl⟩
+      · cases hr
+        exact ⟨.inl (fun o ho => by simp at ho), .inl rfl⟩
     · rw [plainR_ok] at h
       obtain ⟨h, _⟩ := h
       rcases casLoop_c0 h with ⟨_, h2, h3⟩ | h1
       · simp only at h2 h3; subst h2
-        exact ⟨fun o ho => by simp [h3, ht] at ho, .inl rfl⟩
+        exact ⟨.inl (fun o ho => by simp [h3, ht] at ho), .inl rfl⟩
       · cases h1
-        exact ⟨fun o ho => by simp at ho, .inl rfl⟩
+        exact ⟨.inl (fun o ho => by simp at ho), .inl rfl⟩
   · next cold ov todo taken S ht =>
-    rw [plainR_ok, guard_ok] at h
-    obtain ⟨⟨_, h⟩, _⟩ := h; cases h
-    exact ⟨fun o ho => by simp at ho, .inl rfl⟩
+    rw [plainR_ok] at h
+    obtain ⟨h, _⟩ := h
+    rcases fetchAdd_cases h with ⟨⟨ic, f, hr⟩, hfl, hfk⟩ | ⟨hr, hfok, hfl, hfo, hfr, hfk⟩
+    · cases hr; exact ⟨.inl (fun o ho => by simp [ht] at ho), .inl rfl⟩
+    · cases hr
+      exact ⟨.inl (fun o ho => by simp at ho), .inl rfl⟩
   · next cold ov todo taken S ht =>
     split at h
     · cases h
     · cases h
-      exact ⟨fun o ho => by simp at ho, .inl rfl⟩
+      exact ⟨.inl (fun o ho => by simp at ho), .inl rfl⟩
   · cases h
 
 /-- what one accepted event does to `claimed`: nothing, or (only from an `obsStart` task: the claim
-    step) it appends that task's observation; and no event ever leaves its call in an `obsStart` task -/
+    step) it appends that task's observation; and an event leaves its call in an `obsStart` task only if it
+    is a stutter of the claim written as a compare-exchange loop: same task, nothing claimed -/
 theorem evStep_claim {k : Nat} {c : Hp.St} {cuts : Cuts} {e : Ev} {pc : Pc} {c' : Hp.St} {pc' : Pc}
     {rv : Option String} {cuts' : Cuts}
     (h : evStep k c cuts e pc = .ok ((c', pc', rv), cuts')) :
-    (∀ o, pc'.task ≠ some (.obsStart o)) ∧
+    ((∀ o, pc'.task ≠ some (.obsStart o)) ∨ (pc'.task = pc.task ∧ c'.claimed = c.claimed)) ∧
     (c'.claimed = c.claimed ∨ ∃ o, pc.task = some (.obsStart o) ∧ c'.claimed = c.claimed ++ [o]) := by
   unfold evStep at h
   have h1 := evStep1_claim h
   rcases skipTask_cases k (parseLoc e.loc) pc.task with hs | ⟨cold, ov, cell, todo, taken, S, ht, hs, _⟩
   · rw [skipPc_of_task_eq hs] at h1; exact h1
-  · refine ⟨h1.1, ?_⟩
-    rcases h1.2 with h2 | ⟨o, h2, _⟩
-    · exact .inl h2
-    · simp [skipPc, hs] at h2
+  · refine ⟨?_, ?_⟩
+    · rcases h1.1 with h2 | ⟨h2, _⟩
+      · exact .inl h2
+      · exact .inl (fun o ho => by rw [h2] at ho; simp [skipPc, hs] at ho)
+    · rcases h1.2 with h2 | ⟨o, h2, _⟩
+      · exact .inl h2
+      · simp [skipPc, hs] at h2
 
 /-- the thread can still perform the claim step of the call with its current index: it is between
     calls (the next call has index `idx`), or its open call has not claimed yet -/
@@ -127,14 +151,15 @@ def CanClaim (th : Th Pc) : Prop :=
 
 /-- the shape of an accepted item with everything the tag invariant needs: an event of thread `e.tid`
     (same call index afterwards, the call has claimed or can never claim; the tag list grows by
-    `(e.tid, idx)` exactly when `claimed` grows), a call mark (the thread was between calls; same
+    `(e.tid, idx)` exactly when `claimed` grows; or - a stutter of the claim written as a loop - it could
+    claim before, still can, and nothing was claimed), a call mark (the thread was between calls; same
     index), or a return mark (index + 1) -/
 theorem item_shape_tags {s s' : St} {it : Item} (h : item s it = .ok s') :
     (∃ e th pc c' pc' rv cuts' th', s.ths[e.tid]? = some th ∧ th.pc = some pc ∧
         evStep s.bounds.length s.core s.cuts e pc = .ok ((c', pc', rv), cuts') ∧
         s' = { s with core := c', cuts := cuts', ths := s.ths.set e.tid th',
                       tags := if c'.claimed.length > s.core.claimed.length then s.tags ++ [(e.tid, th.idx)] else s.tags } ∧
-        th'.idx = th.idx ∧ ¬ CanClaim th') ∨
+        th'.idx = th.idx ∧ (¬ CanClaim th' ∨ (CanClaim th ∧ c'.claimed = s.core.claimed))) ∨
     (∃ t th th', s.ths[t]? = some th ∧ s' = { s with ths := s.ths.set t th' } ∧
         ((CanClaim th ∧ th'.idx = th.idx) ∨ th'.idx = th.idx + 1)) := by
   cases it with
@@ -153,14 +178,23 @@ theorem item_shape_tags {s s' : St} {it : Item} (h : item s it = .ok s') :
           split at h
           · cases h
             refine .inl ⟨e, th, pc, c', pc', none, cuts', _, hth, hpc, hev, rfl, rfl, ?_⟩
-            rintro (⟨h1, _⟩ | ⟨pcx, o, h1, h2⟩)
-            · simp at h1
-            · simp only [Option.some.injEq] at h1; subst h1; exact hno o h2
+            rcases hno with hno | ⟨hsame, hcl⟩
+            · left
+              rintro (⟨h1, _⟩ | ⟨pcx, o, h1, h2⟩)
+              · simp at h1
+              · simp only [Option.some.injEq] at h1; subst h1; exact hno o h2
+            · by_cases hcan : CanClaim { th with pc := some pc' }
+              · right
+                rcases hcan with ⟨h1, _⟩ | ⟨pcx, o, h1, h2⟩
+                · simp at h1
+                · simp only [Option.some.injEq] at h1; subst h1
+                  exact ⟨.inr ⟨pc, o, hpc, by rw [← hsame]; exact h2⟩, hcl⟩
+              · exact .inl hcan
           · next v =>
             split at h
             · cases h
             · cases h
-              refine .inl ⟨e, th, pc, c', pc', some v, cuts', _, hth, hpc, hev, rfl, rfl, ?_⟩
+              refine .inl ⟨e, th, pc, c', pc', some v, cuts', _, hth, hpc, hev, rfl, rfl, .inl ?_⟩
               rintro (⟨_, h1⟩ | ⟨pcx, o, h1, _⟩)
               · simp at h1
               · simp at h1
@@ -231,9 +265,14 @@ theorem tagInv_step {s s' : St} {it : Item} (I : TagInv s) (h : item s it = .ok 
       intro p hp
       obtain ⟨x, hx, h1, h2⟩ := I.bound p hp
       by_cases hpe : e.tid = p.1
-      · refine ⟨th', ?_, ?_, fun hc => absurd hc hnc⟩
+      · have hxe : x = th := by rw [← hpe, hth] at hx; cases hx; rfl
+        subst hxe
+        refine ⟨th', ?_, ?_, fun hc => ?_⟩
         · rw [← hpe, List.getElem?_set_self hlt]
-        · rw [← hpe, hth] at hx; cases hx; omega
+        · omega
+        · rcases hnc with hnc | ⟨hcan, _⟩
+          · exact absurd hc hnc
+          · have := h2 hcan; omega
       · exact ⟨x, by rw [List.getElem?_set_ne hpe]; exact hx, h1, h2⟩
     rcases (evStep_claim hev).2 with hcl | ⟨o, ho, hcl⟩
     · -- no claim: the tag list stays
@@ -266,7 +305,10 @@ theorem tagInv_step {s s' : St} {it : Item} (I : TagInv s) (h : item s it = .ok 
         rcases List.mem_append.mp hp with hp | hp
         · exact hold p hp
         · simp only [List.mem_singleton] at hp; subst hp
-          exact ⟨th', by simp only; rw [List.getElem?_set_self hlt], by simp only; omega, fun hc => absurd hc hnc⟩
+          refine ⟨th', by simp only; rw [List.getElem?_set_self hlt], by simp only; omega, fun hc => ?_⟩
+          rcases hnc with hnc | ⟨_, hsame⟩
+          · exact absurd hc hnc
+          · rw [hsame] at hcl; simp at hcl
   · have hlt : t < s.ths.length := (List.getElem?_eq_some_iff.mp hth).1
     refine ⟨I.len, I.sorted, ?_⟩
     intro p hp
@@ -494,7 +536,10 @@ theorem tagObsInv_step {bounds prog} {s s' : St} {it : Item} (hr : MReach bounds
           o = obsOfVals bounds (callVals (x.ops.getD x.idx ""))) I.start ?_
       intro pcx o h1 h2
       rcases hth' with rfl | ⟨v, rfl⟩
-      · simp only [Option.some.injEq] at h1; subst h1; exact absurd h2 (hno o)
+      · simp only [Option.some.injEq] at h1; subst h1
+        rcases hno with hno | ⟨hsame, _⟩
+        · exact absurd h2 (hno o)
+        · exact I.start _ _ hth pc o hpc (hsame ▸ h2)
       · simp at h1
     · intro i t k hi
       simp only at hi ⊢
